@@ -813,3 +813,135 @@ def inline_new_helpers(tree: ast.Module, module: str) -> int:
     ast.fix_missing_locations(tree)
     tree._inline_defaulted = inl.defaulted       # [(owner function, helper, params left at default, line, call text)]
     return inl.done
+
+
+# ------------------------------------------------------------------------------------------------ across modules
+_LOCALS_CACHE: Dict[int, Set[str]] = {}
+
+
+def _locals_everywhere(tree) -> Set[str]:
+    """every name stored anywhere in the module (a synthetic module-level import must not be shadowed by a local of some function)"""
+    k = id(tree)
+    if k not in _LOCALS_CACHE:
+        _LOCALS_CACHE[k] = {n.id for n in ast.walk(tree) if isinstance(n, ast.Name) and isinstance(n.ctx, (ast.Store, ast.Del))} | \
+            {a.arg for n in ast.walk(tree) if isinstance(n, ast.arguments) for a in n.args + n.kwonlyargs}
+    return _LOCALS_CACHE[k]
+
+
+def inline_across_modules(modules, abs_module, pkg: str) -> int:
+    """New private helpers that live in ANOTHER module of the package (code moved to a util module, a new private module) are inlined
+    at their call sites as well.  `from <pkg>.a.b import helper [as h]` where `helper` is a module-level function of a.b that does not
+    exist in the pinned tree.  The helper's body refers to names of ITS module; each such name that the calling module does not bind to
+    the same object is imported into the calling module under a synthetic alias (`from <pkg>.a.b import name as __xm_a_b_name`, or
+    a copy of a.b's own import statement with that alias), so that the program model resolves the inlined body exactly as it
+    resolved the helper.  Repeated (bounded) because an inlined body may call further new helpers of its home module."""
+    frozen = frozen_functions()
+    done = 0
+
+    def top_bindings(tree):
+        """name -> ('def', node) | ('import', stmt, alias) | ('assign', stmt)"""
+        out = {}
+        for st in tree.body:
+            if isinstance(st, (ast.FunctionDef, ast.ClassDef)):
+                out[st.name] = ('def', st)
+            elif isinstance(st, ast.Import):
+                for a in st.names:
+                    out[a.asname or a.name.split('.')[0]] = ('import', st, a)
+            elif isinstance(st, ast.ImportFrom):
+                for a in st.names:
+                    out[a.asname or a.name] = ('importfrom', st, a)
+            elif isinstance(st, ast.Assign):
+                for t in st.targets:
+                    if isinstance(t, ast.Name):
+                        out[t.id] = ('assign', st)
+        return out
+
+    def same_binding(b1, b2):
+        if b1 is None or b2 is None or b1[0] != b2[0]:
+            return False
+        if b1[0] == 'import':
+            return b1[2].name == b2[2].name
+        if b1[0] == 'importfrom':
+            return b1[1].module == b2[1].module and b1[1].level == b2[1].level and b1[2].name == b2[2].name
+        return False
+
+    for _round in range(3):
+        changed = False
+        for mname, mi in modules.items():
+            tree = mi.tree
+            mine = top_bindings(tree)
+            helpers: Dict[str, ast.FunctionDef] = {}
+            extra_imports: List[ast.stmt] = []
+            for st in tree.body:
+                if not isinstance(st, ast.ImportFrom):
+                    continue
+                home = abs_module(mi.name, mi.is_pkg, st.level, st.module)
+                if not home.startswith(pkg):
+                    continue
+                hkey = home[len(pkg):].lstrip('.')
+                hm = modules.get(hkey)
+                if hm is None or hm is mi:
+                    continue
+                known = set(frozen.get(hkey, [])) if hkey in frozen else None
+                theirs = top_bindings(hm.tree)
+                for a in st.names:
+                    b = theirs.get(a.name)
+                    if b is None or b[0] != 'def' or not isinstance(b[1], ast.FunctionDef):
+                        continue
+                    if known is not None and a.name in known:
+                        continue            # exists in the pinned tree: anchored where it is
+                    h = _normalised_helper(b[1])
+                    if h is None:
+                        continue
+                    h = copy.deepcopy(h)
+                    local = _locals_of(h)
+                    ren = {}
+                    for n in ast.walk(h):
+                        if isinstance(n, ast.Name) and isinstance(n.ctx, ast.Load) and n.id not in local and n.id in theirs \
+                                and not same_binding(theirs[n.id], mine.get(n.id)):
+                            # the helper's own name for it when the calling module has no binding of that name, an alias otherwise
+                            alias = n.id if n.id not in mine and n.id not in _locals_everywhere(tree) \
+                                else '__xm_' + hkey.replace('.', '_') + '__' + n.id
+                            if n.id not in ren:
+                                ren[n.id] = alias
+                                mine[alias] = theirs[n.id]
+                                tb = theirs[n.id]
+                                asn = alias if alias != (tb[2].name if tb[0] != 'assign' and tb[0] != 'def' else n.id) else None
+                                if tb[0] == 'import':
+                                    imp = ast.Import(names=[ast.alias(name=tb[2].name, asname=alias if (tb[2].asname or alias != tb[2].name.split('.')[0]) else None)])
+                                elif tb[0] == 'importfrom':
+                                    src_mod = abs_module(hm.name, hm.is_pkg, tb[1].level, tb[1].module)
+                                    imp = ast.ImportFrom(module=src_mod, names=[ast.alias(name=tb[2].name, asname=asn)], level=0)
+                                else:
+                                    imp = ast.ImportFrom(module=home, names=[ast.alias(name=n.id, asname=asn)], level=0)
+                                extra_imports.append(imp)
+                    if ren:
+                        _Rename(ren).visit(h)
+                    helpers[a.asname or a.name] = h
+            if not helpers:
+                continue
+            inl = _Inliner(helpers, {})
+            before = inl.done
+            for n in tree.body:
+                if isinstance(n, ast.FunctionDef):
+                    n.body = inl.block(n.body, n.name)
+                elif isinstance(n, ast.ClassDef):
+                    for m in n.body:
+                        if isinstance(m, ast.FunctionDef):
+                            m.body = inl.block(m.body, m.name)
+            if inl.done > before:
+                have = {ast.dump(x) for x in tree.body if isinstance(x, (ast.Import, ast.ImportFrom))}
+                pos = next((i for i, x in enumerate(tree.body) if not (isinstance(x, ast.Expr) and isinstance(x.value, ast.Constant))
+                            and not (isinstance(x, ast.ImportFrom) and x.module == '__future__')), 0)
+                for imp in extra_imports:
+                    if ast.dump(imp) not in have:
+                        have.add(ast.dump(imp))
+                        tree.body.insert(pos, imp)
+                ast.fix_missing_locations(tree)
+                prev = getattr(tree, '_inline_defaulted', [])
+                tree._inline_defaulted = prev + inl.defaulted
+                done += inl.done - before
+                changed = True
+        if not changed:
+            break
+    return done
